@@ -3,6 +3,11 @@
 import json, subprocess, sys
 
 claimed = {
+ "C16": dict(
+   text="Deductively proved: the column header tree — NewKeyHeader and its recursive closure walk are verified against a tiling contract: at every node the children are non-nil nodes of the next level, each covering at least one key, the first starting at the parent's first key, each next one starting exactly where the previous one ends and the last ending at the parent's last key (no gap, no overlap: every column lies under exactly one header cell per level), with the recursion checked against the same contract and the top level tiling [0, len(keys)); align.lpad pads by character count (centred: half the free width on the left; right: full width; left: none).  The width distribution of Table.Format (two sorts through closures, a permutation of the span's columns, cumulative offsets), the benchtab renderers and the scaler are not under contract: covered by two bounded stand-ins — random tables measured in the rendered text, and text-versus-CSV comparison of whole benchstat runs.  The layout check exposed a genuine defect (a span over only shrink columns was never widened: misaligned header rules in benchstat) — fixed.",
+   note="Trusted: FlattenedFields (as in C08); fmt.Sprintf is an uninterpreted function of format and operands (so lpad's contract pins the operands, not the rendered blanks); utf8.RuneCountInString is a function bounded by the byte length.  Termination of the recursive closure is not proved.  Table-key heading lines such as `note: ` (empty value) end in a blank; they are headings, not table lines, and are not counted.",
+   technique="contract-based deductive verification (own VC generator over go/ssa; recursive closure verified modularly against its own contract; pair-form quantifiers with arithmetic-free triggers; z3/cvc5) + bounded layout measurement and text/CSV differential check",
+   design="5/C16"),
  "C14": dict(
    text="Deductively proved pieces of the pipeline: summarizeCell stores as the cell's summary the unit's assumption applied to the cell's own sample, and as its comparison that assumption applied to (baseline cell's sample, own sample) in this order, leaves the sample and baseline links alone and adds at most one warning; NonSingularFields names exactly the flattened residue fields in which the cell's keys differ (soundness and completeness, for any number of keys and fields, missing values reading as empty) — so a warning names exactly the varying keys; internRow (shared with C08) keeps keys equal across field growth, which is what puts a measurement into the cell of its table/row/column.  The accumulation itself (Builder.Add: nested maps keyed by Key; ToTables: goroutines, map iteration, baseline lookup; summarizeCol: geomeans; flag parsing; the renderers) is outside the subset and is covered by a bounded stand-in that drives the real benchstat() on generated files under six flag settings and recomputes every cell independently.",
    note="Trusted: interface method calls (Assumption.Summary/Compare) are functions of receiver and arguments; mapKeys returns the map's keys; FlattenedFields as in C08.  The one-cell-per-combination and exact-sample claims, p-values, deltas, geomean row and the warning set are bounded evidence only.",
